@@ -23,19 +23,20 @@ VARIABLES kinds,    \* Seq of object kinds ("sock","pipeR","pipeW","lst","pkt","
           posted,   \* set of posted handler ids not yet run
           ranp,     \* did a handler run during the PollOne in progress? ("" outside a poll, "n"/"y" inside)
           anomaly,  \* class of the last anomaly seen (used to key accounting rejections)
+          rnext,    \* object -> token of the next unit a read/accept/datagram read must deliver
           bad
 
 
 MonInit ==
   /\ kinds = <<>> /\ cls = "" /\ lim = 0 /\ base = 0
   /\ ost = <<>> /\ ops = <<>> /\ csnap = <<>> /\ tm = <<>> /\ posted = {} /\ ranp = ""
-  /\ anomaly = "" /\ bad = ""
+  /\ anomaly = "" /\ rnext = <<>> /\ bad = ""
 
-monvars == <<kinds, cls, lim, base, ost, ops, csnap, tm, posted, ranp, anomaly, bad>>
+monvars == <<kinds, cls, lim, base, ost, ops, csnap, tm, posted, ranp, anomaly, rnext, bad>>
 
 \* a rule outside the focus is not enforced: the event is ignored
 Fail(key) == IF SubSeq(key, 1, 3) \in Focus
-               THEN bad' = key /\ UNCHANGED <<kinds, cls, lim, base, ost, ops, csnap, tm, posted, ranp, anomaly>>
+               THEN bad' = key /\ UNCHANGED <<kinds, cls, lim, base, ost, ops, csnap, tm, posted, ranp, anomaly, rnext>>
                ELSE UNCHANGED monvars
 
 Kind(o) == IF o \in DOMAIN kinds THEN kinds[o] ELSE "unknown"
@@ -49,17 +50,18 @@ ObsReset(e) ==
   /\ ops' = <<>> /\ csnap' = <<>>
   /\ tm' = [t \in 1..e.n |-> IdleTimer]
   /\ posted' = {} /\ ranp' = "" /\ anomaly' = "" /\ bad' = ""
+  /\ rnext' = [o \in DOMAIN e.kinds |-> 1]
 
 \* ---- asynchronous operations (C01, C14) ----
 ObsCall(e) ==
   IF e.op \in DOMAIN ops THEN Fail("har/op-id-reused")
-  ELSE /\ ops' = ops @@ (e.op :> [o |-> e.o, st |-> "run", ret |-> FALSE, err |-> ""])
-       /\ UNCHANGED <<kinds, cls, lim, base, ost, csnap, tm, posted, ranp, anomaly, bad>>
+  ELSE /\ ops' = ops @@ (e.op :> [o |-> e.o, dir |-> e.dir, st |-> "run", ret |-> FALSE, err |-> ""])
+       /\ UNCHANGED <<kinds, cls, lim, base, ost, csnap, tm, posted, ranp, anomaly, rnext, bad>>
 
 ObsRet(e) ==
   IF e.op \notin DOMAIN ops THEN Fail("har/unknown-op")
   ELSE /\ ops' = [ops EXCEPT ![e.op].ret = TRUE]
-       /\ UNCHANGED <<kinds, cls, lim, base, ost, csnap, tm, posted, ranp, anomaly, bad>>
+       /\ UNCHANGED <<kinds, cls, lim, base, ost, csnap, tm, posted, ranp, anomaly, rnext, bad>>
 
 IsErrno(s) == s = "errno"
 
@@ -70,7 +72,12 @@ ObsCbB(e) ==
     ELSE IF ost[r.o] = "closed" THEN Fail("C01/callback-after-close/" \o Kind(r.o))
     ELSE IF cls = "chain" /\ e.depth > lim + 1 THEN Fail("C14/depth/" \o Kind(r.o))
     ELSE IF cls = "chain" /\ e.err # "nil" THEN Fail("C14/deferred-result/" \o Kind(r.o))
-    ELSE /\ ops' = [ops EXCEPT ![e.op].st = "done", ![e.op].err = e.err]
+    \* a successful read / accept / datagram read delivers the oldest unit the peer queued (tokens count up
+    \* per object); in a chain this is "the result it would have had inline"
+    ELSE IF r.dir = "R" /\ e.err = "nil" /\ e.n > 0 /\ e.tok # rnext[r.o] /\ cls = "chain" /\ "C14" \in Focus
+         THEN Fail("C14/deferred-result/" \o Kind(r.o) \o ":wrong-unit")
+    ELSE /\ rnext' = IF r.dir = "R" /\ e.err = "nil" /\ e.n > 0 THEN [rnext EXCEPT ![r.o] = e.tok + 1] ELSE rnext
+         /\ ops' = [ops EXCEPT ![e.op].st = "done", ![e.op].err = e.err]
          /\ ranp' = IF ranp = "" THEN "" ELSE "y"
          /\ anomaly' = IF IsErrno(e.err) /\ ~r.ret THEN "failed-registration:" \o Kind(r.o)
                        ELSE IF IsErrno(e.err) THEN "errno-completion:" \o Kind(r.o) ELSE anomaly
@@ -79,7 +86,7 @@ ObsCbB(e) ==
 ObsCancelB(e) ==
   /\ csnap' = <<[o |-> e.o,
                  ids |-> {id \in DOMAIN ops : ops[id].o = e.o /\ ops[id].st = "run" /\ ops[id].ret}]>> \o csnap
-  /\ UNCHANGED <<kinds, cls, lim, base, ost, ops, tm, posted, ranp, anomaly, bad>>
+  /\ UNCHANGED <<kinds, cls, lim, base, ost, ops, tm, posted, ranp, anomaly, rnext, bad>>
 
 ObsCancelE(e) ==
   IF csnap = <<>> \/ csnap[1].o # e.o THEN Fail("har/cancel-nesting")
@@ -90,27 +97,27 @@ ObsCancelE(e) ==
   ELSE IF \E id \in csnap[1].ids : ops[id].st = "done" /\ ops[id].err # "cancelled"
        THEN Fail("C01/cancel-wrong-error/" \o Kind(e.o))
   ELSE /\ csnap' = Tail(csnap)
-       /\ UNCHANGED <<kinds, cls, lim, base, ost, ops, tm, posted, ranp, anomaly, bad>>
+       /\ UNCHANGED <<kinds, cls, lim, base, ost, ops, tm, posted, ranp, anomaly, rnext, bad>>
 
 ObsCloseB(e) ==
   /\ ost' = [ost EXCEPT ![e.o] = IF @ = "open" THEN "closing" ELSE @]
-  /\ UNCHANGED <<kinds, cls, lim, base, ops, csnap, tm, posted, ranp, anomaly, bad>>
+  /\ UNCHANGED <<kinds, cls, lim, base, ops, csnap, tm, posted, ranp, anomaly, rnext, bad>>
 
 ObsCloseE(e) ==
   /\ ost' = [ost EXCEPT ![e.o] = "closed"]
-  /\ UNCHANGED <<kinds, cls, lim, base, ops, csnap, tm, posted, ranp, anomaly, bad>>
+  /\ UNCHANGED <<kinds, cls, lim, base, ops, csnap, tm, posted, ranp, anomaly, rnext, bad>>
 
 \* ---- PollOne (C03) ----
 ObsPollB(e) ==
   /\ ranp' = "n"
-  /\ UNCHANGED <<kinds, cls, lim, base, ost, ops, csnap, tm, posted, anomaly, bad>>
+  /\ UNCHANGED <<kinds, cls, lim, base, ost, ops, csnap, tm, posted, anomaly, rnext, bad>>
 
 ObsPollE(e) ==
   IF ranp = "y" /\ (e.n <= 0 \/ e.err # "nil") THEN Fail("C03/pollone-count/ran-but-not-reported")
   ELSE IF e.err = "nil" /\ e.n <= 0 THEN Fail("C03/pollone-count/zero-success")
   ELSE IF e.err # "nil" /\ e.err # "timeout" THEN Fail("C03/pollone-error/" \o e.err)
   ELSE /\ ranp' = ""
-       /\ UNCHANGED <<kinds, cls, lim, base, ost, ops, csnap, tm, posted, anomaly, bad>>
+       /\ UNCHANGED <<kinds, cls, lim, base, ost, ops, csnap, tm, posted, anomaly, rnext, bad>>
 
 \* ---- accounting sampled at top level (C03, C14, C04) ----
 InFlight == {id \in DOMAIN ops : ops[id].st = "run" /\ ost[ops[id].o] = "open"}
@@ -128,13 +135,13 @@ ObsSample(e) ==
 \* ---- timers (C04) ----
 ObsTSchedB(e) ==
   /\ tm' = [tm EXCEPT ![e.t].att = TRUE, ![e.t].attd = e.d, ![e.t].attts = e.ts, ![e.t].attrep = e.n]
-  /\ UNCHANGED <<kinds, cls, lim, base, ost, ops, csnap, posted, ranp, anomaly, bad>>
+  /\ UNCHANGED <<kinds, cls, lim, base, ost, ops, csnap, posted, ranp, anomaly, rnext, bad>>
 
 ObsTSchedE(e) ==
   LET r == tm[e.t] IN
   IF e.err # "nil" THEN
        /\ tm' = [tm EXCEPT ![e.t].att = FALSE]
-       /\ UNCHANGED <<kinds, cls, lim, base, ost, ops, csnap, posted, ranp, anomaly, bad>>
+       /\ UNCHANGED <<kinds, cls, lim, base, ost, ops, csnap, posted, ranp, anomaly, rnext, bad>>
   ELSE IF r.st = "closed" THEN Fail("C04/revived")
   ELSE IF r.st \in {"once", "rep"} /\ ~r.infire THEN Fail("C04/double-schedule")
   ELSE /\ tm' = [tm EXCEPT ![e.t] =
@@ -142,13 +149,13 @@ ObsTSchedE(e) ==
                      THEN [r EXCEPT !.att = FALSE]     \* immediate execution, nothing stays due
                      ELSE [r EXCEPT !.att = FALSE, !.st = IF r.attrep = 1 THEN "rep" ELSE "once",
                                     !.d = r.attd, !.t0 = r.attts, !.why = "sched"]]
-       /\ UNCHANGED <<kinds, cls, lim, base, ost, ops, csnap, posted, ranp, anomaly, bad>>
+       /\ UNCHANGED <<kinds, cls, lim, base, ost, ops, csnap, posted, ranp, anomaly, rnext, bad>>
 
 ObsTFireB(e) ==
   LET r == tm[e.t] IN
   IF r.att /\ r.attd <= 0 /\ r.st \notin {"once", "rep"} THEN   \* ScheduleOnce(<= 0): runs at once
        /\ ranp' = IF ranp = "" THEN "" ELSE "y"
-       /\ UNCHANGED <<kinds, cls, lim, base, ost, ops, csnap, tm, posted, anomaly, bad>>
+       /\ UNCHANGED <<kinds, cls, lim, base, ost, ops, csnap, tm, posted, anomaly, rnext, bad>>
   ELSE IF r.st = "closed" THEN Fail("C04/after-close")
   ELSE IF r.st = "idle" THEN
        Fail(IF r.why = "fired" THEN "C04/double-fire"
@@ -158,31 +165,31 @@ ObsTFireB(e) ==
                    IF r.st = "once" THEN [r EXCEPT !.st = "idle", !.why = "fired", !.infire = TRUE]
                                     ELSE [r EXCEPT !.t0 = e.ts, !.infire = TRUE]]
        /\ ranp' = IF ranp = "" THEN "" ELSE "y"
-       /\ UNCHANGED <<kinds, cls, lim, base, ost, ops, csnap, posted, anomaly, bad>>
+       /\ UNCHANGED <<kinds, cls, lim, base, ost, ops, csnap, posted, anomaly, rnext, bad>>
 
 ObsTFireE(e) ==
   /\ tm' = [tm EXCEPT ![e.t].infire = FALSE]
-  /\ UNCHANGED <<kinds, cls, lim, base, ost, ops, csnap, posted, ranp, anomaly, bad>>
+  /\ UNCHANGED <<kinds, cls, lim, base, ost, ops, csnap, posted, ranp, anomaly, rnext, bad>>
 
 ObsTCancelE(e) ==
   /\ tm' = [tm EXCEPT ![e.t] = IF e.err = "nil" /\ @.st \in {"once", "rep"}
                                   THEN [@ EXCEPT !.st = "idle", !.why = "cancelled"] ELSE @]
-  /\ UNCHANGED <<kinds, cls, lim, base, ost, ops, csnap, posted, ranp, anomaly, bad>>
+  /\ UNCHANGED <<kinds, cls, lim, base, ost, ops, csnap, posted, ranp, anomaly, rnext, bad>>
 
 ObsTCloseE(e) ==
   /\ tm' = [tm EXCEPT ![e.t] = IF e.err = "nil" THEN [@ EXCEPT !.st = "closed", !.why = "closed"] ELSE @]
-  /\ UNCHANGED <<kinds, cls, lim, base, ost, ops, csnap, posted, ranp, anomaly, bad>>
+  /\ UNCHANGED <<kinds, cls, lim, base, ost, ops, csnap, posted, ranp, anomaly, rnext, bad>>
 
 \* ---- posted handlers, single-threaded part (C05) ----
 ObsPostE(e) ==
   /\ posted' = IF e.err = "nil" THEN posted \cup {e.h} ELSE posted
-  /\ UNCHANGED <<kinds, cls, lim, base, ost, ops, csnap, tm, ranp, anomaly, bad>>
+  /\ UNCHANGED <<kinds, cls, lim, base, ost, ops, csnap, tm, ranp, anomaly, rnext, bad>>
 
 ObsPostRunB(e) ==
   IF e.h \notin posted THEN Fail("C05/run-twice")
   ELSE /\ posted' = posted \ {e.h}
        /\ ranp' = IF ranp = "" THEN "" ELSE "y"
-       /\ UNCHANGED <<kinds, cls, lim, base, ost, ops, csnap, tm, anomaly, bad>>
+       /\ UNCHANGED <<kinds, cls, lim, base, ost, ops, csnap, tm, anomaly, rnext, bad>>
 
 \* ---- RunPending (C03) ----
 \* the driver made every parked operation completable before the call
